@@ -6,6 +6,7 @@
   correspondence check (go/overlay/internal/pkg/table/zz_verif_c03_test.go).
 -/
 import Lemmas.BestPathHist
+import Lemmas.Multipath
 namespace C03
 open BestPath Lex
 
@@ -250,6 +251,29 @@ theorem multipath_members_tie (best y : Cand) (h : equalCost best y = true) :
          · simp [a1, a2, a3] at h3; omega
        · simp [a1, a2] at h3; omega
      · simp [a1] at h3; omega)
+
+/-- **multipath_complete (partial).** With the default AS_PATH-length handling, MED comparable
+    across the candidates and no confederation members, a list sorted by the decision process
+    has ALL paths that are equal-cost with the best path at its head: every one of them is in
+    the multipath set (nothing equal-cost hides behind a worse path). Missing for the full
+    statement: under `ignore-as-path-length`, with non-comparable MEDs or with confederation
+    members `Path.Compare` looks at fields the sort order skips, and an equal-cost path CAN sit
+    behind a path that differs only there (second `example` below). -/
+theorem multipath_complete_partial (o : Opts) (best : Cand) (rest : List Cand)
+    (ho : o.ignoreAsPathLen = false) (hb : best.nhInvalid = false)
+    (wf : SetWF o (best :: rest)) (hs : Sorted o (best :: rest))
+    (hc : ∀ c ∈ best :: rest, c.src.confed = false) :
+    ∀ y ∈ rest, equalCost best y = true → y ∈ multipath (best :: rest) :=
+  BestPath.multipath_complete_partial o best rest ho hb wf hs hc
+
+/-- non-vacuity: three equal-cost eBGP paths and a worse one, sorted by age -/
+example : (multipath (run o0 [.ann (ebgp 1 65001 10 101 100 5 7), .ann (ebgp 2 65001 11 102 100 5 3),
+    .ann (ebgp 3 65001 12 103 90 5 1), .ann (ebgp 4 65001 13 104 100 5 9)])).map (·.id) = [2, 1, 4] := by decide
+/-- what the hypotheses exclude: with ignore-as-path-length the older path 2 (longer AS_PATH,
+    not equal under Compare) sorts between the equal-cost paths 1 and 3, and 3 is left out -/
+example : (multipath (run ⟨true, true, false⟩ [.ann (ebgp 1 65001 10 101 100 5 1),
+    .ann { (ebgp 2 65001 11 102 100 5 2) with segs := [⟨2, [65001, 100, 200]⟩] },
+    .ann (ebgp 3 65001 12 103 100 5 3)])).map (·.id) = [1] := by decide
 
 /-- the pinned tree located the end of the run with a binary search over a predicate that is not
     monotone along the sorted list (LLGR-stale paths sort last whatever their attributes, and
